@@ -124,6 +124,23 @@ def run(chk):
             hw = c01.run_history(rec, scw)
             kfw = []
             mon += [(scw, k, m) for k, m in null_history_fails(hw, kfw)]
+            # a flow that stops part-way through ONE update: from then on the texture must not move
+            for _ in range(2 if chk.tier == "quick" else 12):
+                scs = MT.scenario(rng, regime=int((4, 6)[int(rng.integers(2))]), n=int(rng.integers(3, 10)), nupd=1, lkind="stopping", strain=0.4)
+                scs["params"]["gbs_threshold"] = 0.0
+                hs = c01.run_history(rec, scs)
+                c01.validate_traces(chk, hs, bad)
+                mon += [(scs, k, m) for k, m in hs["fails"]]
+                if not hs["fails"]:
+                    ms, ps, gL, gx, desc = MT.build(scs)
+                    ts = desc["t_stop"]
+                    if ts < hs["dt"]:
+                        Fh = ms.update_orientations(ps, np.eye(3), gL, (0.0, ts, gx))
+                        dO = float(np.abs(np.asarray(ms.orientations[-1]) - np.asarray(hs["mineral"].orientations[-1])).max())
+                        df = float(np.abs(np.asarray(ms.fractions[-1]) - np.asarray(hs["mineral"].fractions[-1])).max())
+                        chk.cov["stopping_flow_max_drift"] = max(chk.cov.get("stopping_flow_max_drift", 0.0), dO, df)
+                        if dO > 1e-2 or df > 1e-2 / scs["n"] * 5:
+                            mon.append((scs, 0, f"texture kept evolving after the velocity gradient dropped to zero inside an update: orientations {dO:.3e}, fractions {df:.3e}"))
             # viscosity-bound regimes under every flow
             for regime in (0, 7):
                 for lk in MT.L_FAMILIES:
